@@ -80,6 +80,21 @@ Theorem C13_rmw_response_spec : forall tf now rules fs fs' res,
 Proof. exact rmw_response_spec. Qed.
 Print Assumptions C13_rmw_response_spec.
 
+(* the whole request, any rule list: a column that no rule names keeps exactly its cells, and in
+   every column every version present before is still present afterwards ("older versions are
+   kept": a rule replaces a version only at the very timestamp it writes) *)
+Theorem C13_rmw_untouched_columns : forall tf now rules fs res fs' res' f q,
+  rmw_rules tf now rules fs res = Some (fs', res') ->
+  existsb (targets f q) rules = false -> cells_of fs' f q = cells_of fs f q.
+Proof. exact rmw_rules_untouched. Qed.
+Print Assumptions C13_rmw_untouched_columns.
+
+Theorem C13_rmw_keeps_versions : forall tf now rules fs res fs' res',
+  fams_ok fs -> rmw_rules tf now rules fs res = Some (fs', res') ->
+  forall f q t, abs_fams fs f q t <> None -> abs_fams fs' f q t <> None.
+Proof. exact rmw_rules_keep_versions. Qed.
+Print Assumptions C13_rmw_keeps_versions.
+
 (* failures *)
 Theorem C13_unknown_family_fails : forall tf now rules fs res rule,
   In rule rules -> known_family tf (fst (rule_target rule)) = false ->
